@@ -18,6 +18,8 @@ Types are the nested tuples of c19_abi.  A recipe follows the shape of its type:
     ("addrexpr", b32) the expression Addr(<address>)   (an Expr)
   inner forms
     ("copy", r)       y assembled by r, then x.set(y)   (same type)
+    ("xcopy", t2, r)  y of the layout-equal class t2 assembled by r, then x.set(y): String <- DynamicArray[Byte],
+                      Address <- StaticArray[Byte, 32], StaticBytes[N] <- StaticArray[Byte, N], Uint8 <-> Byte
     ("members", [r...])  every member its own instance; x.set(*members) / x.set([members])
 
 An input vector is (ints, byts): the values of the run-time numbers / byte strings of one execution.
@@ -134,6 +136,9 @@ def gen_recipe(t, rng, alloc, p_expr=0.5, p_copy=0.08, p_bad=0.0, maxlen=4, dept
     k = kind(t)
     if k not in ("tuple", "named") and rng.random() < p_copy and depth < 6:
         return ("copy", gen_recipe(t, rng, alloc, p_expr, p_copy / 2, p_bad, maxlen, depth + 1))
+    if xcopy_source(t) is not None and rng.random() < p_copy and depth < 6:
+        t2 = xcopy_source(t)
+        return ("xcopy", t2, gen_recipe(t2, rng, alloc, p_expr, 0.0, 0.0, maxlen, depth + 1))
     bits = uint_bits(t)
     if bits is not None:
         r = rng.random()
@@ -195,6 +200,22 @@ def gen_recipe(t, rng, alloc, p_expr=0.5, p_copy=0.08, p_bad=0.0, maxlen=4, dept
     raise ValueError("gen_recipe: %r" % (t,))
 
 
+def xcopy_source(t):
+    """a different TypeSpec class whose instances x.set(...) accepts for a target of type t (same ARC-4 layout)"""
+    k = kind(t)
+    if k == "string":
+        return ("darr", "byte")
+    if k == "address":
+        return ("sarr", "byte", 32)
+    if k == "sbytes" and t[1] <= 40:
+        return ("sarr", "byte", t[1])
+    if t == ("uint", 8):
+        return "byte"
+    if t == "byte":
+        return ("uint", 8)
+    return None
+
+
 def recipe_inputs(r, acc=None):
     """(set of int indices, set of bytes indices) used by a recipe"""
     if acc is None:
@@ -205,6 +226,8 @@ def recipe_inputs(r, acc=None):
         acc[1].add(r[1])
     elif r[0] == "copy":
         recipe_inputs(r[1], acc)
+    elif r[0] == "xcopy":
+        recipe_inputs(r[2], acc)
     elif r[0] == "members":
         for x in r[1]:
             recipe_inputs(x, acc)
@@ -214,6 +237,8 @@ def recipe_inputs(r, acc=None):
 def count_instances(r):
     if r[0] == "copy":
         return 1 + count_instances(r[1])
+    if r[0] == "xcopy":
+        return 1 + count_instances(r[2])
     if r[0] == "members":
         return 1 + sum(count_instances(x) for x in r[1])
     return 1
@@ -248,6 +273,9 @@ def _value(t, r, ints, byts, state):
         if k in ("tuple", "named"):
             raise Reject("Tuple.set(other tuple) is not supported")
         return _value(t, r[1], ints, byts, state)
+    if f == "xcopy":
+        v = _value(r[1], r[2], ints, byts, state)
+        return bytes(v) if is_bytes_like(t) and isinstance(v, list) else v
     bits = uint_bits(t)
     if bits is not None:
         if f == "int":
@@ -377,6 +405,9 @@ def src_sx(r, ints, byts):
         return (S("bexpr"), bytes_sx(r[1]))
     if f == "copy":
         return (S("copy"), src_sx(r[1], ints, byts))
+    if f == "xcopy":
+        # the model has same-class copies only; the member / integer source forms mean the same at both classes
+        return (S("copy"), src_sx(r[2], ints, byts))
     if f == "members":
         items = r[1]
         if len(items) > 1500 and all(x == items[0] for x in items):
@@ -416,6 +447,9 @@ class Builder:
         f = r[0]
         if f == "copy":
             y = self.build(t, r[1])
+            self.steps.append(x.set(y))
+        elif f == "xcopy":
+            y = self.build(r[1], r[2])
             self.steps.append(x.set(y))
         elif f == "int":
             self.steps.append(x.set(r[1]))
